@@ -103,6 +103,9 @@ def gen(rng, tier):
     from driver import multigen
     for c in _gen_core(rng, tier):
         yield c
+    from driver import cligen
+    for c in cligen.cases(rng, ['dedup'], 40 if tier == "quick" else 400):
+        yield c
     for _ in range(2 if tier == "quick" else 20):
         for argv in MULTI_CMDS:
             yield multigen.multi_case(multigen.alignments(rng), argv, "cli-multi-" + "-".join(argv[:2]))
